@@ -130,8 +130,10 @@ def build_config(args):
 
 def run_corpus(exe, corp):
     w = pool.Worker(exe)
-    lines = [rt.obj_line(0)]
+    # a recycled, non-zero object: crypt.h only asks callers to clear 'reserved' and 'initialized'
+    lines = [rt.obj_line(0, align=5, fill="r", seed=len(exe))]
     for fam, p, s in corp:
+        lines.append("fill 0 r %d" % (len(p) * 131 + len(s)))
         lines.append(rt.crypt_line("crypt_rn", 0, p, s))
         lines.append("checksalt %s" % pool.hx(s))
     rb = facts.rbytes_pattern("inc", 64)
@@ -154,9 +156,9 @@ def run_corpus(exe, corp):
         return None, end, lines
     out = {"crypt": [], "gensalt": {}, "preferred": rt.unhx(res[-1].get("v", "-"))}
     for i, (fam, p, s) in enumerate(corp):
-        a, b = res[1 + 2 * i], res[2 + 2 * i]
+        a, b = res[2 + 3 * i], res[3 + 3 * i]
         out["crypt"].append((rt.hash_of(a), rt.errno_of(a), int(b["v"])))
-    base = 1 + 2 * len(corp)
+    base = 1 + 3 * len(corp)
     for k, (m, pre) in enumerate(gl):
         r = res[base + k]
         out["gensalt"][m] = (rt.out_of(r) if r["r"] == "O" else None, rt.errno_of(r))
